@@ -29,7 +29,21 @@ def setup_mono(scn, skip_nodes=None, fix=None):
 
 
 def solve_rec(rec, solver=None):
-    res = impl.solve(rec['op'], solver=solver)
+    if len(rec['op'].c) == 0:
+        # no asset has a step in the horizon: nothing to optimise (cvxpy rejects a variable of size zero)
+        rec['res'] = 'empty problem'
+        rec['out'] = None
+        return rec
+    try:
+        res = impl.solve(rec['op'], solver=solver)
+    except Exception as e:
+        # the external solver gave up with an exception (ill-conditioned data): retry with HiGHS, else treat as unsolved
+        if type(e).__name__ != 'SolverError':
+            raise
+        try:
+            res = impl.solve(rec['op'], solver='SCIPY')
+        except Exception:
+            res = 'solver error'
     rec['res'] = res
     if isinstance(res, str):
         rec['out'] = None
@@ -39,8 +53,12 @@ def solve_rec(rec, solver=None):
     return rec
 
 
-def setup_split(scn, interval):
-    portf, tg, prices, nodes = scen.build(scn)
+def setup_split(scn, interval, objects=None):
+    """objects = (portf, tg, prices): reuse existing objects (history on the same objects) instead of building fresh ones"""
+    if objects is not None:
+        portf, tg, prices = objects
+    else:
+        portf, tg, prices, nodes = scen.build(scn)
     rec = {'portf': portf, 'tg': tg, 'prices': prices, 'scn': scn, 'split': interval}
     with Quiet(), impl.Capture(portf) as cap:
         op = portf.setup_split_optim_problem(prices, tg, interval_size=interval)
